@@ -628,7 +628,7 @@ func finish(agg *Agg, planned int, start time.Time) int {
 		return "", false
 	}
 	printedKnown := map[string]bool{}
-	var unknown []Violation
+	var unknown, firstKnown []Violation
 	knownHits := map[string]int{}
 	for _, v := range agg.Violations {
 		if what, ok := isKnown(v.Signature); ok {
@@ -636,6 +636,7 @@ func finish(agg *Agg, planned int, start time.Time) int {
 			if !printedKnown[v.Signature] {
 				printedKnown[v.Signature] = true
 				fmt.Printf("KNOWN-FINDING: property=%s %s [signature %s]\n", ch.ID, what, v.Signature)
+				firstKnown = append(firstKnown, v)
 			}
 			continue
 		}
@@ -648,6 +649,12 @@ func finish(agg *Agg, planned int, start time.Time) int {
 		}
 	}
 	_ = os.MkdirAll(filepath.Join(VerifRoot, "evidence"), 0o755)
+	// the first observation of every recorded finding is kept as a replay file too
+	for i, v := range firstKnown {
+		name := fmt.Sprintf("%s-seed%d-case%d-known%d.json", ch.ID, agg.Seed, v.Case, i+1)
+		b, _ := json.MarshalIndent(map[string]any{"property": ch.ID, "seed": agg.Seed, "tier": agg.Tier, "case": v.Case, "signature": v.Signature, "what": v.What, "detail": v.Detail, "known_finding": true}, "", " ")
+		_ = os.WriteFile(filepath.Join(VerifRoot, "replays", name), b, 0o644)
+	}
 	seenSig := map[string]int{}
 	replayN := 0
 	for _, v := range unknown {
